@@ -10,6 +10,7 @@ def V(t="Int", v=None):
     _tag[0] += 1
     if t == "Int": return {"t": "Int", "v": str(_tag[0] if v is None else v)}
     if t == "String": return {"t": "String", "v": "s%d" % _tag[0] if v is None else v}
+    if t == "Unsigned": return {"t": "Unsigned", "v": str(_tag[0] if v is None else v)}
     raise ValueError(t)
 def val(t="Int", v=None): return {"k": "val", "v": V(t, v)}
 def col(n): return {"k": "col", "n": n}
@@ -46,6 +47,12 @@ def win_np():
     """ORDER BY and frame without PARTITION BY (a running total)"""
     return {"order": [{"e": col("a"), "o": {"d": "Desc"}, "nulls": "Last"}], "frame": {"type": "Range", "start": {"b": "UnboundedPreceding"}}}
 
+def win_rows(order):
+    """the explicit ROWS frame that looks like the default one (which is RANGE based), without / with an ORDER BY that has ties"""
+    w = {"partition": [col("b")], "frame": {"type": "Rows", "start": {"b": "UnboundedPreceding"}, "end": {"b": "CurrentRow"}}}
+    if order: w["order"] = [{"e": col("b"), "o": {"d": "Asc"}}]
+    return w
+
 def menu():
     _tag[0] = 1000
     select = [
@@ -55,11 +62,18 @@ def menu():
          [c("column", n="id"), c("expr", e={"k": "case", "whens": [{"c": eq(col("a"), val()), "r": val("String")}], "else": val("String")})],
          [c("column", n="a"), c("expr_window", e=fn("Sum", col("a")), w=win(True), a="w")],
          [c("column", n="a"), c("expr_window_name", e=fn("Sum", col("a")), w="w1", a="w")],
-         [c("column", n="a"), c("expr_window", e=fn("Sum", col("a")), w=win_np(), a="rt")]],
+         [c("column", n="a"), c("expr_window", e=fn("Sum", col("a")), w=win_np(), a="rt")],
+         [c("column", n="a"), c("expr_window", e=fn("Sum", col("a")), w=win_rows(False), a="ru"), c("expr_window", e=fn("Count", col("a")), w=win_rows(True), a="rc")],
+         # PostgreSQL text search helpers: the optional regconfig comes first in the SQL, second in the Rust call
+         [c("expr_as", e=fn("PgTsRankCd", fn("PgToTsvector", col("c")), fn("PgToTsquery", val("String"))), a="r"), c("expr", e=fn("PgArrayAgg", col("a"))), c("expr", e=fn("PgJsonAgg", bin_("Add", col("a"), val()))), c("expr", e=fn("PgGenRandomUuid"))],
+         [c("expr", e=fn("Round", bin_("Div", col("a"), val()), val()))],
+         [c("expr_as", e=fn("PgToTsquery", val("Unsigned"), val("String")), a="q"), c("expr", e=fn("PgTsRank", fn("PgToTsvector", val("Unsigned"), col("c")), fn("PgPlaintoTsquery", val("String"))))]],
         [[], [c("distinct")], [c("distinct_on", cols=["a"])]],
         [[c("from", t=["t1"])], [c("from_as", t=["t1"], a="u")], [c("from_subquery", q=sel(c("column", n="id"), c("column", n="a"), c("column", n="b"), c("from", t=["t1"]), c("and_where", e=bin_("SmallerThan", col("a"), val()))), a="t1")],
          [c("from", t=["t1"]), c("from", t=["t2"])],
          [c("from", t=["main", "t1"])],
+         [c("from_subquery", take=True, q=sel(c("column", n="id"), c("column", n="a"), c("column", n="b"), c("from", t=["t1"]), c("table_sample", method="SYSTEM", pct=40),
+                                              c("use_index", name="ix_a", scope="All"), c("and_where", e=bin_("SmallerThan", col("a"), val()))), a="t1")],
          [c("from_values", rows=[[V(), V("String"), V()], [V(), V("String"), V()]], a="t1")],
          [c("from_values", rows=[[V(), V(), V(), V("String")]], a="v4"), c("from_values", rows=[[V()], [V()], [V()]], a="v1")]],
         [[], [c("join", jt="Inner", t=["t2"], on=bin_("Equal", tcol("t1", "id"), tcol("t2", "t1_id")))],
@@ -72,11 +86,21 @@ def menu():
         [[], [c("and_where", e=eq(col("a"), val()))], [c("and_where", e=eq(col("a"), val())), c("and_where", e=bin_("NotEqual", col("b"), val()))],
          [c("cond_where", c=cond("any", False, [eq(col("a"), val()), {"k": "in", "neg": False, "e": col("b"), "vs": [val(), val()]}]))],
          [c("and_where", e={"k": "insub", "neg": False, "e": col("id"), "q": simple_sub()})],
+         [c("cond_where", c=cond("any", False, [])), c("and_where", e=eq(col("a"), val()))],
+         # operators whose relative precedence differs between the engines (shift / bitwise and / bitwise or)
+         [c("and_where", e=bin_("GreaterThan", bin_("BitAnd", col("a"), bin_("LShift", col("b"), val())), val())),
+          c("and_where", e=bin_("Equal", bin_("BitOr", bin_("RShift", col("a"), val()), bin_("LShift", col("b"), val())), val()))],
+         # the same text bound twice (every occurrence is a value of its own), and a comparison with an absent value
+         [c("and_where", e=eq(col("c"), val("String", "dup"))), c("and_where", e=bin_("NotEqual", col("c"), val("String", "dup"))), c("and_where", e=eq(col("b"), {"k": "val", "v": {"t": "Int", "null": True}}))],
+         [c("cond_where", c=cond("all", True, [])), c("cond_where", c=cond("any", False, [eq(col("a"), val()), eq(col("b"), val())]))],
          [c("and_where", e={"k": "between", "neg": False, "e": col("a"), "a": val(), "b": val()}), c("and_where", e={"k": "like", "neg": False, "e": col("c"), "p": "x%", "esc": "|"})],
+         # a quoted token that ends in a backslash, followed by bound values
+         [c("and_where", e={"k": "like", "neg": False, "e": col("c"), "p": "x%", "esc": "\\"}), c("and_where", e=eq(col("a"), val())), c("and_where", e=eq(col("c"), val("String")))],
          [c("and_where", e={"k": "bin", "op": "In", "m": "in_tuples", "l": {"k": "tuple", "es": [col("a"), col("b"), col("id")]},
                             "r": {"k": "tuple", "es": [{"k": "vals", "vs": [V(), V(), V()]}, {"k": "vals", "vs": [V(), V(), V()]}]}}), c("and_where", e=eq(col("c"), val("String")))],
          [c("and_where", e=bin_("GreaterThan", bin_("Sub", col("a"), bin_("Sub", col("b"), val())), bin_("Mod", col("b"), bin_("Mod", val(), val()))))]],
-        [[], [c("group_by_col", n="a")], [c("group_by_col", n="a"), c("group_by", e=bin_("Mod", col("b"), val()))]],
+        [[], [c("group_by_col", n="a")], [c("group_by_col", n="a"), c("group_by", e=bin_("Mod", col("b"), val()))],
+         [c("group_by_col", n="a"), c("group_by_col", n="b")], [c("group_by", e=bin_("Mod", col("b"), val())), c("group_by_col", n="a"), c("group_by_col", n="id")]],
         [[], [c("and_having", e=bin_("GreaterThan", fn("Count", col("id")), val()))]],
         [[], [c("union", type="All", q=sel(c("column", n="k"), c("from", t=["t2"]), c("and_where", e=eq(col("x"), val()))))],
          [c("union", type="Distinct", q=sel(c("column", n="k"), c("from", t=["t2"]))), c("union", type="Except", q=sel(c("column", n="t1_id"), c("from", t=["t2"]), c("and_where", e=eq(col("x"), val()))))],
@@ -84,11 +108,14 @@ def menu():
         [[], [c("order_by", e=col("a"), o={"d": "Asc"})], [c("order_by", e=col("a"), o={"d": "Desc"}, nulls="Last"), c("order_by", e=col("id"), o={"d": "Asc"})],
          [c("order_by", e=col("a"), o={"d": "Field", "field": [V(), V()]})], [c("order_by", e=bin_("Add", col("a"), val()), o={"d": "Asc"}, nulls="First")]],
         [[], [c("limit", n=3)], [c("limit", n=3), c("offset", n=1)]],
-        [[], [c("lock", type="Update")], [c("lock", type="Share", tables=[["t1"]], behavior="SkipLocked")], [c("lock", type="NoKeyUpdate", behavior="Nowait")]],
+        [[], [c("lock", type="Update")], [c("lock", type="Share", tables=[["t1"]], behavior="SkipLocked")], [c("lock", type="NoKeyUpdate", behavior="Nowait")],
+         [c("lock", type="Update", tables=[["t1"], ["t2"]], behavior="SkipLocked")], [c("lock", type="Share", tables=[["t1"], ["t2"], ["t3"]])]],
         [[], [c("table_sample", method="SYSTEM", pct=50)], [c("table_sample", method="BERNOULLI", pct=10, rep=3)]],
         [[], [c("use_index", name="ix_a", scope="All")], [c("force_index", name="ix_a", scope="OrderBy"), c("ignore_index", name="ix_b", scope="Join")]],
         [[], [c("window", name="w1", w=win(False))], [c("window", name="w1", w=win(True))], [c("window", name="w1", w=win_np())]],
         [[], [c("with_cte", w={"ctes": [{"name": "cte", "cols": ["k"], "q": sel(c("column", n="k"), c("from", t=["t2"]), c("and_where", e=eq(col("x"), val())))}]})],
+         [c("with_cte", w={"ctes": [{"from_select": True, "q": sel(c("column", n="k"), c("expr_as", e=bin_("Add", col("x"), val()), a="x1"), c("column", n="t1_id", q=["t2"]), c("from", t=["t2"]))}]})],
+         [c("with_cte", w={"ctes": [{"from_select": True, "q": sel(c("column", n="k"), c("expr", e=bin_("Mul", col("x"), val())), c("from", t=["t2"]))}]})],
          [c("with_cte", w=rec_with(search=True))], [c("with_cte", w=rec_with(cycle=True))], [c("with_cte", w=rec_with(search=True, cycle=True))],
          [c("with_cte", w=rec_with())]],
     ]
@@ -98,12 +125,15 @@ def menu():
          [c("columns", cols=["a", "b"]), c("values_panic", row=[val(), val()]), c("values_panic", row=[val(), bin_("Add", val(), val())])],
          [c("columns", cols=["a", "b"]), c("select_from", q=sel(c("column", n="x"), c("expr", e=val()), c("from", t=["t2"]), c("and_where", e=eq(col("x"), val()))))],
          [c("or_default_values")], [c("or_default_values_many", n=2)],
-         [c("columns", cols=["a", "c"]), c("values_panic", row=[val(), val("String")])]],
+         [c("columns", cols=["a", "c"]), c("values_panic", row=[val(), val("String")])],
+         [c("columns", cols=["c", "a"]), c("values_panic", row=[val("String", "same"), val()]), c("values_panic", row=[val("String", "same"), val()])]],
         [[], [c("replace")]],
         [[], [c("on_conflict", oc={"cols": ["id"], "action": {"nothing": True}})],
          [c("on_conflict", oc={"cols": ["id"], "action": {"update_cols": ["a"]}})],
-         [c("on_conflict", oc={"cols": ["id"], "action": {"values": [["a", bin_("Add", col("a"), val())]]}, "action_where": bin_("GreaterThan", tcol("t1", "a"), val())})],
-         [c("on_conflict", oc={"cols": ["id"], "target_where": bin_("GreaterThan", col("id"), val()), "action": {"update_cols": ["a", "b"]}})],
+         [c("on_conflict", oc={"cols": ["id"], "action": {"values": [["a", bin_("Add", col("a"), val())]]}, "action_where": bin_("GreaterThan", tcol("t1", "a"), val()), "aw_m": "and_where_option"})],
+         [c("on_conflict", oc={"cols": ["id"], "target_where": bin_("GreaterThan", col("id"), val()), "tw_m": "and_where", "action": {"update_cols": ["a", "b"]}})],
+         [c("on_conflict", oc={"cols": ["id"], "target_where": bin_("SmallerThan", col("id"), val()), "tw_m": "and_where_option", "action": {"values": [["b", val()]]},
+                               "action_where": bin_("SmallerThan", tcol("t1", "b"), val()), "aw_m": "and_where"})],
          [c("on_conflict", oc={"cols": ["id"], "action": {"nothing_on": ["id"]}})]],
         [[], [c("returning", r={"all": True})], [c("returning", r={"cols": ["id"]})], [c("returning", r={"exprs": [bin_("Add", col("a"), val())]})]],
         [[], [c("with_cte", w={"ctes": [{"name": "cte", "cols": ["k"], "q": sel(c("column", n="k"), c("from", t=["t2"]), c("and_where", e=eq(col("x"), val())))}]})]],
@@ -190,6 +220,17 @@ def rand_select_n(rng, depth, n):
     calls = [c("column", n=cols[i % 3]) for i in range(n)] + [c("from", t=[t])]
     if rng.random() < 0.6: calls.append(c("and_where", e=rand_expr(rng, 1, cols)))
     return sel(*calls)
+
+def nested_with():
+    """a WITH query whose statement carries a WITH clause of its own (not a statement of any dialect, but every
+    rendering entry point has to agree on it)"""
+    cte = lambda nm: {"ctes": [{"name": nm, "cols": ["k"], "q": sel(c("column", n="k"), c("from", t=["t2"]), c("and_where", e=eq(col("x"), val())))}]}
+    inner = sel(c("column", n="id"), c("from", t=["t1"]), c("and_where", e=eq(col("a"), val())), c("with_cte", w=cte("inner_cte")))
+    return {"kind": "with", "w": cte("outer_cte"), "q": inner}
+
+def fixed_stmts():
+    """statements every run includes besides the menu walks and the random ones"""
+    return [nested_with(), nested_with()]
 
 def rand_stmt(rng):
     k = rng.random()
